@@ -25,7 +25,7 @@ TRUSTED = ["harness/sfcore.py printers and capture stream; harness/c09.py identi
 ASSUMPTIONS = ["identifiers are extracted structurally per format (keys, headers, table / column names, mapping step and field names); values are never scanned",
                "the rendering `Table(id)` of a reference value inside the debug text is a value, not an identifier "
                "(references into hidden tables are out of scope by design)"]
-W = dict(hidden_field=0.45, hidden_table=0.3, nested=0.2, friend=0.5, ref=0.28, randref=0.1)
+W = dict(hidden_nick=0.1, hidden_field=0.45, hidden_table=0.3, nested=0.2, friend=0.5, ref=0.28, randref=0.1)
 
 
 def generate(rng, tier):
